@@ -169,32 +169,26 @@ theorem readN_writeSections (c : Cfg) (fuel : Nat) (z m : Bool) (gs : List G)
       readGeom_writeSection c fuel c.order z m g hk.1 hwf.1 hf.1, asChild_ok, isSimpleCurve_canonSec, hk.1, if_true,
       ih hk.2 hwf.2 hf.2, List.map_cons]
 
-theorem writeSection_length_ge (c : Cfg) (z m : Bool) (g : G) (hk : isSimpleCurve g = true)
-    (hne : gIsEmpty g = false) : 16 ≤ (writeSection c z m g).length := by
-  have aux : ∀ (s : CSeq) (code : Nat), s.pts.isEmpty = false →
-      16 ≤ (header c z m code 0 ++ seqBytes c.order z m s).length := by
-    intro s code h
+theorem writeSection_length_ge (c : Cfg) (z m : Bool) (g : G) (hk : isSimpleCurve g = true) :
+    9 ≤ (writeSection c z m g).length := by
+  have aux : ∀ (s : CSeq) (code : Nat), 9 ≤ (header c z m code 0 ++ seqBytes c.order z m s).length := by
+    intro s code
     have h1 := header_length_ge c z m code 0
-    have h2 := ptsBytes_length_ge c.order z m s.pts
-    have : 1 ≤ s.pts.length := by
-      cases hp : s.pts with
-      | nil => simp [hp] at h
-      | cons a b => simp
     simp only [List.length_append, seqBytes, putU32_length]; omega
   cases g with
-  | lineString s => exact aux s 2 (by simpa [gIsEmpty] using hne)
-  | linearRing s => exact aux s 2 (by simpa [gIsEmpty] using hne)
-  | circularString s => exact aux s 8 (by simpa [gIsEmpty] using hne)
+  | lineString s => exact aux s 2
+  | linearRing s => exact aux s 2
+  | circularString s => exact aux s 8
   | _ => simp [isSimpleCurve] at hk
 
-theorem writeSections_length_ge (c : Cfg) (z m : Bool) (gs : List G) (hk : gs.all isSimpleCurve = true)
-    (hne : gs.all (fun g => !gIsEmpty g) = true) : gs.length * 16 ≤ (writeSections c z m gs).length := by
+theorem writeSections_length_ge (c : Cfg) (z m : Bool) (gs : List G) (hk : gs.all isSimpleCurve = true) :
+    gs.length * 9 ≤ (writeSections c z m gs).length := by
   induction gs with
   | nil => simp [writeSections]
   | cons g gs ih =>
-    simp only [List.all_cons, Bool.and_eq_true, Bool.not_eq_true'] at hk hne
-    have := writeSection_length_ge c z m g hk.1 hne.1
-    have := ih hk.2 (by simpa using hne.2)
+    simp only [List.all_cons, Bool.and_eq_true] at hk
+    have := writeSection_length_ge c z m g hk.1
+    have := ih hk.2
     simp only [writeSections, List.length_cons, List.length_append]; omega
 
 /-- contiguity only looks at X and Y, which the round trip keeps -/
